@@ -57,7 +57,9 @@ def ModHash.addLocked {H : Type} [DecidableEq H] (m : ModHash H) (ep : Ep H) : O
   if ep.host ∈ m.mapValues then none
   else some { m with endpoints := m.endpoints ++ [ep], mapValues := m.mapValues ++ [ep.host] }
 
-/-- `(*ModHash).Refresh` -/
+/-- `(*ModHash).Refresh`.  The Go code copies the endpoints into a list of its own
+    (`make` + `append`); the model state is a value, so the caller's slice cannot be observed
+    afterwards — the harness stream `alias` overwrites it after every call to hold the code to that. -/
 def ModHash.refresh {H : Type} [DecidableEq H] (build : List (Ep H) → List Nat) (m : ModHash H) (eps : List (Ep H)) : ModHash H :=
   let m0 : ModHash H := { m with mapValues := [], endpoints := [] }
   ModHash.reBuildLocked build (eps.foldl (fun m ep => match m.addLocked ep with | some m' => m' | none => m) m0)
